@@ -511,4 +511,135 @@ theorem gunzip_cut (h : Hdr) (hw : h.WF) (cs : List Bytes) (hok : ChunksOk cs) (
   rw [h1]
   exact ⟨d, rfl, h2⟩
 
+
+/-! ## truncation of a file of several members -/
+
+/-- a proper, non-empty prefix of a header is no header (the encodings of headers are prefix-free) -/
+theorem noHeader_cut_header (h : Hdr) (hw : h.WF) (j : Nat) (hj : j < h.encode.length) : NoHeader (h.encode.take j) := by
+  intro r hr
+  obtain ⟨hd, hdw, hs⟩ := readHeaderRest_sound _ _ hr
+  have e1 : h.encode = hd.encode ++ (r ++ h.encode.drop j) := by
+    rw [← List.append_assoc, ← hs, List.take_append_drop]
+  have h1 := readHeaderRest_encode h hw []
+  rw [List.append_nil, e1, readHeaderRest_encode hd hdw] at h1
+  injection h1 with h1
+  have : h.encode.drop j = [] := (List.append_eq_nil_iff.1 h1).2
+  have := List.drop_eq_nil_iff.1 this
+  omega
+
+/-- complete members, then a member whose body is cut: everything decoded so far, then a read error -/
+theorem gunzipFrom_stored_cut (ms : List (Hdr × List Bytes)) (hms : MembersOk ms) (cs : List Bytes) (hcs : ChunksOk cs)
+    (h : Hdr) (hw : h.WF) (Y d : Bytes) (hY : memberBody Y = (d, none)) (fuel : Nat) (hf : ms.length + 2 ≤ fuel) :
+    gunzipFrom fuel (deflateStored cs ++ trailer cs.flatten ++ (fileStored ms ++ (h.encode ++ Y)))
+      = (cs.flatten ++ fileData ms ++ d, true) := by
+  induction ms generalizing cs fuel with
+  | nil =>
+    match fuel, hf with
+    | fuel + 2, _ =>
+      rw [gunzipFrom, memberBody_stored cs hcs]
+      simp only [fileStored, List.nil_append, fileData, List.map_nil, List.flatten_nil, List.append_nil]
+      rw [readHeaderRest_encode h hw]
+      simp only [gunzipFrom, hY]
+  | cons m ms ih =>
+    cases fuel with
+    | zero => simp at hf
+    | succ fuel =>
+      rw [gunzipFrom, memberBody_stored cs hcs]
+      have hm := hms m (by simp)
+      simp only [fileStored, memberStored, List.append_assoc]
+      rw [readHeaderRest_encode m.1 hm.1]
+      simp only []
+      have := ih (fun x hx => hms x (by simp [hx])) m.2 hm.2 fuel (by simp at hf ⊢; omega)
+      simp only [List.append_assoc] at this
+      rw [this]
+      simp [fileData]
+
+theorem memberStored_length (h : Hdr) (cs : List Bytes) :
+    (memberStored h cs).length = h.encode.length + (deflateStored cs ++ trailer cs.flatten).length := by
+  simp [memberStored, List.append_assoc]
+
+/-- **A file of gzip members cut anywhere**: `ms1` complete members, then `j` bytes of the next member `m`
+    (`j` < its length; for the very first member the header must be there – `gzip_cut_in_header_is_plain`).
+    The data of the complete members and a prefix of `m`'s data are delivered; the stream ends with a read error
+    UNLESS the cut is exactly at the member boundary (`j = 0`), where what is left is a complete gzip file. -/
+theorem gunzip_cut_file (ms1 : List (Hdr × List Bytes)) (m : Hdr × List Bytes) (hms : MembersOk (ms1 ++ [m])) (j : Nat)
+    (hj : j < (memberStored m.1 m.2).length) (hfirst : ms1 = [] → m.1.encode.length ≤ j) :
+    ∃ d : Bytes, d <+: m.2.flatten ∧
+      gunzip (fileStored ms1 ++ (memberStored m.1 m.2).take j) = some (fileData ms1 ++ d, decide (j ≠ 0)) := by
+  have hm := hms m (by simp)
+  by_cases hh : m.1.encode.length ≤ j
+  · -- the header of `m` is there, its body is cut
+    have hjb : j - m.1.encode.length < (deflateStored m.2 ++ trailer m.2.flatten).length := by
+      rw [memberStored_length] at hj; omega
+    obtain ⟨d, h1, h2⟩ := memberBody_cut m.2 hm.2 _ hjb
+    have hcut : (memberStored m.1 m.2).take j
+        = m.1.encode ++ (deflateStored m.2 ++ trailer m.2.flatten).take (j - m.1.encode.length) := by
+      unfold memberStored
+      rw [List.append_assoc, List.take_append, List.take_of_length_le hh]
+    have hj0 : j ≠ 0 := by have := encode_length_pos m.1; omega
+    refine ⟨d, h2, ?_⟩
+    rw [hcut]
+    simp only [hj0, ne_eq, not_false_eq_true, decide_true]
+    cases ms1 with
+    | nil =>
+      simp only [fileStored, List.nil_append, fileData, List.map_nil, List.flatten_nil]
+      unfold gunzip
+      rw [readHeaderRest_encode m.1 hm.1]
+      simp only [gunzipFrom, h1]
+    | cons m0 ms =>
+      have hm0 := hms m0 (by simp)
+      unfold gunzip
+      simp only [fileStored, memberStored, List.append_assoc]
+      rw [readHeaderRest_encode m0.1 hm0.1]
+      simp only []
+      have := gunzipFrom_stored_cut ms (fun x hx => hms x (by simp [hx])) m0.2 hm0.2 m.1 hm.1 _ d h1
+      simp only [List.append_assoc] at this
+      rw [this]
+      · simp [fileData]
+      · have := fileStored_length_ge ms
+        have := encode_length_pos m.1
+        simp only [List.length_append]
+        omega
+  · -- the cut is inside the header of `m` (or right before it): `ms1` is a complete file followed by a non-header
+    have hlt : j < m.1.encode.length := by omega
+    cases ms1 with
+    | nil => exact absurd (hfirst rfl) hh
+    | cons m0 ms =>
+      have hcut : (memberStored m.1 m.2).take j = m.1.encode.take j := by
+        unfold memberStored
+        rw [List.append_assoc, List.take_append_of_le_length (by omega)]
+      refine ⟨[], List.nil_prefix, ?_⟩
+      rw [hcut, gunzip_fileStored m0 ms (fun x hx => hms x (by
+        simp only [List.cons_append, List.mem_cons, List.mem_append] at hx ⊢
+        rcases hx with hx | hx
+        · exact Or.inl hx
+        · exact Or.inr (Or.inl hx))) _ (noHeader_cut_header m.1 hm.1 j hlt)]
+      have : (m.1.encode.take j ≠ []) ↔ j ≠ 0 := by
+        have := encode_length_pos m.1
+        rw [ne_eq, List.take_eq_nil_iff]
+        constructor
+        · intro h1 h2; exact h1 (Or.inl h2)
+        · intro h1 h2
+          rcases h2 with h2 | h2
+          · exact h1 h2
+          · rw [h2] at this; simp at this
+      simp [this]
+
+/-- every cut point of a file of members is of that form -/
+theorem fileStored_cut_decompose (ms : List (Hdr × List Bytes)) (k : Nat) (hk : k < (fileStored ms).length) :
+    ∃ ms1 m ms2 j, ms = ms1 ++ m :: ms2 ∧ k = (fileStored ms1).length + j ∧ j < (memberStored m.1 m.2).length ∧
+      (fileStored ms).take k = fileStored ms1 ++ (memberStored m.1 m.2).take j := by
+  induction ms generalizing k with
+  | nil => simp [fileStored] at hk
+  | cons m ms ih =>
+    by_cases hlt : k < (memberStored m.1 m.2).length
+    · refine ⟨[], m, ms, k, rfl, by simp [fileStored], hlt, ?_⟩
+      simp only [fileStored, List.nil_append]
+      rw [List.take_append_of_le_length (by omega)]
+    · simp only [fileStored, List.length_append] at hk
+      obtain ⟨ms1, m', ms2, j, h1, h2, h3, h4⟩ := ih (k - (memberStored m.1 m.2).length) (by omega)
+      refine ⟨m :: ms1, m', ms2, j, by simp [h1], by simp only [fileStored, List.length_append]; omega, h3, ?_⟩
+      simp only [fileStored]
+      rw [List.take_append, List.take_of_length_le (by omega), h4, List.append_assoc]
+
 end Rare.C06.Gz
